@@ -55,11 +55,13 @@ Finish == /\ Dump /\ done' = TRUE /\ UNCHANGED <<vars, hist, ph>>
 \* step wrappers: the action plus its script record
 DoTell(n, x, t, ask, nph) ==
     /\ Tell(n, x, t, ask)
-    /\ hist' = Append(hist, [a |-> "tell", n |-> n, x |-> x, t |-> t, ask |-> ask, p |-> Len(sends')])
+    /\ hist' = Append(hist, [a |-> "tell", n |-> n, x |-> x, t |-> t, ask |-> ask, p |-> Len(sends'),
+                             c |-> sends'[Len(sends')].c, newc |-> Len(conns') > Len(conns)])
     /\ ph' = nph /\ UNCHANGED done
 DoReply(n, dl, ask, nph) ==
     /\ Reply(n, dl, ask)
-    /\ hist' = Append(hist, [a |-> "reply", n |-> n, re |-> dl.p, ask |-> ask, p |-> Len(sends')])
+    /\ hist' = Append(hist, [a |-> "reply", n |-> n, re |-> dl.p, ask |-> ask, p |-> Len(sends'),
+                             c |-> sends'[Len(sends')].c, newc |-> Len(conns') > Len(conns)])
     /\ ph' = nph /\ UNCHANGED done
 DoMListen(k, proof, nph) ==
     /\ MListen(k, proof)
